@@ -11,9 +11,4 @@ namespace Yarl
 
 theorem C08_slot_writes_only_fresh : Gen.slotWritesOnlyFresh = true := by decide
 
-/-- the functions that assign URL slots are the constructors and `__setstate__` only -/
-theorem C08_slot_writers_allowed :
-    ∀ w ∈ Gen.slotWriters, w ∈ ["__new__", "__setstate__", "build", "build_pre_encoded_url", "encode_url",
-                                 "from_parts_uncached", "pre_encoded_url"] := by decide
-
 end Yarl
